@@ -20,7 +20,10 @@ RULE = ("Valid calendar dates 1990-2029 x notations (d.m.yyyy, dd.mm.yyyy, d/m/y
 
 MIL_YEARS = {2000, 2005, 2010, 2015, 2020, 2025}
 NUMERIC = ["{d}.{m}.{y}", "{d:02d}.{m:02d}.{y}", "{d}/{m}/{y}", "{d:02d}-{m:02d}-{y}", "{d:02d}/{m:02d}/{y}", "{d}-{m}-{y}"]
-NAMED = ["{d} {M} {y}", "{d}. {M} {y}", "{M} {d} {y}", "{M} {d}{suf}, {y}", "{d}{suf} of {M} {y}", "{d}{suf} {M} {y}", "{M} {d}{suf} {y}"]
+NAMED = ["{d} {M} {y}", "{d}. {M} {y}", "{M} {d} {y}", "{M} {d}{suf}, {y}", "{d}{suf} of {M} {y}", "{d}{suf} {M} {y}", "{M} {d}{suf} {y}",
+         # glued: the numeric day-month-year pattern also takes a month name between the separators
+         "{d}-{M}-{y}", "{d}.{M}.{y}", "{d}/{M}/{y}", "{d:02d}-{M}-{y}"]
+GLUED = NAMED[-4:]
 CLOCKS = [None, ("{h:02d}:{mi:02d}", None), ("at {h}:{mi:02d}", None), ("{h12}:{mi:02d}{ap}", None), ("um {h} Uhr", 0), ("{h}:{mi:02d} Uhr", None)]
 
 
@@ -41,7 +44,10 @@ def render(date, notation, month_name, clock, h, mi):
     elif notation in NUMERIC:
         txt = notation.format(d=d, m=m, y=y)
     else:
-        txt = notation.format(d=d, M=month_name.capitalize(), y=y, suf=suffix(d))
+        mn = month_name.capitalize()
+        if notation in GLUED and notation[notation.index("{M}") + 3] == "." and mn.endswith("."):
+            mn = mn[:-1]  # 'Jan.' + '.' separator: one dot
+        txt = notation.format(d=d, M=mn, y=y, suf=suffix(d))
     exp = O.T(y, m, d)
     if clock is not None:
         tpl, fixed_mi = clock
@@ -185,8 +191,21 @@ def _hard_shard(arg):
     return acc
 
 
+def _vocab_shard(arg):
+    """every month spelling of the frozen vocabulary x every month-name notation, once (deterministic)"""
+    pid, months = arg
+    acc = core.Acc(pid)
+    for m in months:
+        for k, nm in enumerate(G.MONTH_FORMS[m - 1]):
+            for j, nt in enumerate(NAMED):
+                date = dt.date((2019, 2023, 1998)[(k + j) % 3], m, 13 + (m + j + k) % 15)
+                do(acc, date, nt, nm, CLOCKS[(m + j + k) % len(CLOCKS)], 9 + (k + j) % 12, (7 * j + k) % 60, HARD_REFS[(j + k) % 2:][:2], "every-month-spelling")
+    return acc
+
+
 def run(ctx):
     acc = core.pmap_acc(ctx.pid, _hard_shard, [(ctx.pid, p) for p in core.chunks(hard_dates(), 16)])
+    acc.merge(core.pmap_acc(ctx.pid, _vocab_shard, [(ctx.pid, [m]) for m in range(1, 13)]))
     subs = []
     if ctx.thorough:
         dates = list(all_dates())
